@@ -40,7 +40,8 @@ CONSTANTS RawT,      \* raw type letters used for scalar / array fields
           MaxIF,     \* max fields of a nested definition
           MinF,      \* min fields of the top-level definition
           MaxDepth,  \* nesting depth (0 = flat)
-          Feat,      \* subset of {"bits","typedef","nestarr","var","cnt","bound","leb"}
+          Feat,      \* subset of {"bits","typedef","nestarr","vararr","var","cnt","bound","leb"}
+                     \* ("vararr": arrays of definitions that have variable-length members)
           BitSplits, \* set of width sequences for bitfields
           PS,        \* pointer sizes (bits)
           VCs,       \* value classes: "zero","pat","neg","min","max"
@@ -299,7 +300,7 @@ Pack(d, vs, ps, D) ==
 (*   "SLebU"        a signed LEB128 member is decoded as unsigned (the     *)
 (*                  per-instance copy of the field forgets its sign)        *)
 (*   "SLongU", "PackedNestAlign"  see above                                 *)
-RECURSIVE Unpack(_, _, _, _, _), DecField(_, _, _, _, _, _, _), UnpFrom(_, _, _, _, _, _, _, _, _, _), DecElems(_, _, _, _, _, _, _),
+RECURSIVE Unpack(_, _, _, _, _), DecField(_, _, _, _, _, _, _), UnpFrom(_, _, _, _, _, _, _, _, _, _), DecArr(_, _, _, _, _, _), DecElems(_, _, _, _, _, _, _),
           TermLen(_, _, _, _, _), ImplLen(_, _, _)
 DecElems(t, bs, o, n, ps, eo, D) ==
   IF IsBytes(t) THEN Sub(bs, o, n)
@@ -310,6 +311,12 @@ TermLen(t, bs, o, ps, k) == IF IsZeroElem(t, bs, o, ps) THEN k + 1 ELSE TermLen(
 (* StructCore.__len__ on an unpacked instance: sizes of the host (ps = 64) *)
 NatPs(ps, D) == IF "LenNative" \in D THEN 64 ELSE ps
 ImplLen(d, ps, D) == SizeOf(d, NatPs(ps, D), D \cup {"_inst"})
+(* n consecutive elements of definition fd; an element with variable-length members has its own length *)
+DecArr(fd, bs, o, n, ps, D) ==
+  IF n = 0 THEN [v |-> <<>>, il |-> 0, x |-> o]
+  ELSE LET r == Unpack(fd, bs, o, ps, D)
+           rest == DecArr(fd, bs, o + r.il, n - 1, ps, D)
+       IN [v |-> <<r.v>> \o rest.v, il |-> r.il + rest.il, x |-> IF r.x > rest.x THEN r.x ELSE rest.x]
 DecField(d, f, bs, o, ps, prior, D) ==
   LET eo == EOrd(d, f) IN
   CASE f.k = "raw" /\ ~(f.td /\ "AbsAlign" \in D) ->
@@ -331,12 +338,11 @@ DecField(d, f, bs, o, ps, prior, D) ==
          IF f.n = 0
          THEN LET r == Unpack(f.d, bs, o, ps, D)
               IN [v |-> r.v, n |-> r.il, il |-> r.il, x |-> r.x]
-         ELSE LET es == ImplLen(f.d, ps, D)       \* Field.unpack strides with len(element)
-                  rs == [j \in 1..f.n |-> Unpack(f.d, bs, o + (j - 1) * es, ps, D)]
-              IN [v |-> [j \in 1..f.n |-> rs[j].v],
-                  n |-> IF "ArrLenCount" \in D THEN f.n ELSE f.n * es,
-                  il |-> IF "ArrLenCount" \in D THEN f.n ELSE f.n * es,
-                  x |-> Max({rs[j].x : j \in 1..f.n})]
+         ELSE LET a == DecArr(f.d, bs, o, f.n, ps, D)   \* Field.unpack: every element advances by its OWN len(element)
+              IN [v |-> a.v,
+                  n |-> IF "ArrLenCount" \in D THEN f.n ELSE a.il,
+                  il |-> IF "ArrLenCount" \in D THEN f.n ELSE a.il,
+                  x |-> a.x]
     [] f.k = "bits" -> [v |-> DecBits(f, bs, o, ps, eo), n |-> RawSize(f.t, ps), il |-> RawSize(f.t, ps), x |-> o + RawSize(f.t, ps)]
     [] f.k = "var"  -> LET k == TermLen(f.t, bs, o, ps, 0)
                        IN [v |-> DecElems(f.t, bs, o, k, ps, eo, D), n |-> k * RawSize(f.t, ps), il |-> k * RawSize(f.t, ps),
@@ -484,6 +490,7 @@ UnpTrig(d, vs, ps, last) ==      \* last: nothing is read after this definition
     CASE f.k = "var" /\ Len(vs[i]) = 1 /\ ~lastf -> <<"VarEmptyNoSize">>
       [] f.k = "cnt" /\ Len(vs[i]) > 0 /\ RawSize(f.ct, ps) % RawSize(f.t, ps) # 0 -> <<"CntNativeSize">>
       [] f.k = "nest" /\ f.n = 0 -> UnpTrig(f.d, vs[i], ps, lastf)
+      [] f.k = "nest" /\ f.n > 0 -> Flat([j \in 1..f.n |-> UnpTrig(f.d, vs[i][j], ps, lastf /\ j = f.n)])
       [] OTHER -> <<>>])
 
 -----------------------------------------------------------------------------
@@ -496,7 +503,8 @@ Room == Len(Top.fs) < (IF Len(stk) = 1 THEN MaxF ELSE MaxIF)
 InUnion == \E i \in 1..Len(stk) : stk[i].kind = "union"
 AllPacked == \A i \in 1..Len(stk) : stk[i].kind = "struct" /\ stk[i].packed
 (* variable-length members: C has none; they are generated in packed        *)
-(* structures only (sequential layout), never inside unions or arrays       *)
+(* structures only (sequential layout), never inside unions; arrays of such  *)
+(* structures (elements of different lengths) need "vararr" in Feat          *)
 VarOK == AllPacked
 LastIsBits == Len(Top.fs) > 0 /\ Top.fs[Len(Top.fs)].k = "bits"
 Push(f) == stk' = [stk EXCEPT ![Len(stk)].fs = Append(@, f)]
@@ -537,7 +545,7 @@ Open == /\ phase = "build" /\ pend = "open"
         /\ \E kind \in DefKinds, ord \in DefOrds : stk' = Append(stk, NewDef(kind, ord))
         /\ pend' = "" /\ UNCHANGED <<phase, psz, vcl, img>>
 Close == /\ phase = "build" /\ pend = "close"
-         /\ \E n \in {0} \cup (IF "nestarr" \in Feat /\ ~HasVar(Top) THEN NestN ELSE {}) :
+         /\ \E n \in {0} \cup (IF "nestarr" \in Feat /\ (~HasVar(Top) \/ "vararr" \in Feat) THEN NestN ELSE {}) :
               stk' = [SubSeq(stk, 1, Len(stk) - 1) EXCEPT ![Len(stk) - 1].fs = Append(@, NestF(Top, n))]
          /\ pend' = "" /\ UNCHANGED <<phase, psz, vcl, img>>
 Finish == /\ phase = "build" /\ pend = "finish"
